@@ -10,9 +10,9 @@ reports a `CErr.ovf*` and returns what the unchecked mirror returns.
 Modelled C++ (pinned tree), variable by variable:
   /repo/src/P2.cpp:39-82   `P2_thread<T>`:  `int64_t pi_xp` (`pi_xp += it2.size_ - it2.i_`, `pi_xp += 1`), `T sum` (`sum += pi_xp`)
   /repo/src/gourdon/B.cpp:38-81 `B_thread<T>` (same text, `T` unsigned)
-  /repo/src/P2.cpp:109     `T sum = (a - 2) * (a + 1) / 2 - (b - 2) * (b + 1) / 2;` with `int64_t a`, `T b`:
-                           `(a - 2) * (a + 1)` is an `int64_t` product WHATEVER `T` is (both operands are `int64_t`),
-                           `(b - 2) * (b + 1)` and the difference are computed in `T`
+  /repo/src/P2.cpp:111-112 `T pi_y = a; T sum = (pi_y - 2) * (pi_y + 1) / 2 - (b - 2) * (b + 1) / 2;` (since /repo 8cccffb):
+                           everything in `T` (`p2InitC`).  Before 8cccffb the line read `(a - 2) * (a + 1) / 2 - …` with
+                           `int64_t a`: an `int64_t` product WHATEVER `T` is (`p2InitCPreFix`, finding F9)
   /repo/src/P2.cpp:116-121, B.cpp:103-108  the thread-private `T sum` (`sum += P2_thread(...)`) and the `reduction(+: sum)`
 Core Lean only.
 -/
@@ -28,7 +28,7 @@ inductive CErr where
   | ovfPi
   /-- a `T sum` (thread-local, thread-private or reduced) would leave `T` -/
   | ovfSum
-  /-- `(a - 2) * (a + 1)` leaves `int64_t` (P2.cpp:109; both operands are `int64_t`) -/
+  /-- `(pi_y - 2) * (pi_y + 1)` (or an operand) leaves `T` (P2.cpp:112); in `p2InitCPreFix`: `(a - 2) * (a + 1)` leaves `int64_t` -/
   | ovfInitA
   /-- `(b - 2) * (b + 1)` or the difference of the two halves leaves `T` (P2.cpp:109) -/
   | ovfInitB
@@ -124,9 +124,11 @@ def reduceC (tMin : Int) (tMax : Nat) (f : Nat → Nat → Except CErr Nat) (es 
       if inRange tMin tMax (init + (s : Int)) then reduceC tMin tMax f es (init + (s : Int)) ws
       else .error .ovfSum
 
-/-- P2.cpp:109 with the operand types of the source: `a` is `int64_t`, so `(a - 2) * (a + 1)` is an `int64_t`
-    multiplication for BOTH instantiations of `T`; `b` is `T` -/
-def p2InitC (tMin : Int) (tMax : Nat) (a b : Nat) : Except CErr Int :=
+/-- P2.cpp:109 of the tree BEFORE /repo 8cccffb (`T sum = (a - 2) * (a + 1) / 2 - (b - 2) * (b + 1) / 2;`), with the
+    operand types of that source: `a` is `int64_t`, so `(a - 2) * (a + 1)` was an `int64_t` multiplication for BOTH
+    instantiations of `T`; `b` is `T`.  Kept as the record of finding F9 (`p2InitCPreFix_overflows`,
+    `P2_128_closed_form_overflows`, `closed_form_threshold`); the current source is `p2InitC`. -/
+def p2InitCPreFix (tMin : Int) (tMax : Nat) (a b : Nat) : Except CErr Int :=
   let pa : Int := ((a : Int) - 2) * ((a : Int) + 1)
   let pb : Int := ((b : Int) - 2) * ((b : Int) + 1)
   if !inRange (-(two63 : Int)) (two63 - 1) pa then .error .ovfInitA else
@@ -134,7 +136,36 @@ def p2InitC (tMin : Int) (tMax : Nat) (a b : Nat) : Except CErr Int :=
   let r := Int.tdiv pa 2 - Int.tdiv pb 2
   if !inRange tMin tMax r then .error .ovfInitB else .ok r
 
-/-- `P2_OpenMP<T>(x, y, a, threads, is_print)` (P2.cpp:90-125), signed `T = [-(tMax+1), tMax]`, every stored value checked -/
+/-- P2.cpp:111-112 (since /repo 8cccffb): `T pi_y = a; T sum = (pi_y - 2) * (pi_y + 1) / 2 - (b - 2) * (b + 1) / 2;`
+    every operand is a `T`: `pi_y - 2`, `pi_y + 1`, their product, `b - 2`, `b + 1`, their product and the difference of
+    the two halves are all checked against `T = [tMin, tMax]` (the conversion `T pi_y = a` of an `int64_t` is
+    value-preserving for both instantiations; `/ 2` cannot overflow) -/
+def p2InitC (tMin : Int) (tMax : Nat) (a b : Nat) : Except CErr Int :=
+  let pa : Int := ((a : Int) - 2) * ((a : Int) + 1)
+  let pb : Int := ((b : Int) - 2) * ((b : Int) + 1)
+  if !(inRange tMin tMax ((a : Int) - 2) && inRange tMin tMax ((a : Int) + 1) && inRange tMin tMax pa) then
+    .error .ovfInitA else
+  if !(inRange tMin tMax ((b : Int) - 2) && inRange tMin tMax ((b : Int) + 1) && inRange tMin tMax pb) then
+    .error .ovfInitB else
+  let r := Int.tdiv pa 2 - Int.tdiv pb 2
+  if !inRange tMin tMax r then .error .ovfInitB else .ok r
+
+/-- `P2_OpenMP<T>` of the tree BEFORE /repo 8cccffb (closed form `p2InitCPreFix`); the record of finding F9 -/
+def p2OpenMPCPreFix (tMax : Nat) (c : Consts) (it : Iter) (pi : Nat → Nat) (x y a : Nat) (r : Run) : Except CErr Int :=
+  if a ≠ pi y then .error (.base .assertA) else
+  if x < 4 then .ok 0 else
+  let sqrtx := isqrtN x
+  if sqrtx ≤ y then .ok 0 else
+  let b := pi sqrtx
+  match p2InitCPreFix (-(tMax : Int) - 1) tMax a b with
+  | .error e => .error e
+  | .ok sum0 =>
+    let xy := x / max y 1
+    if two63 ≤ xy then .error (.base .narrow) else
+    if !r.valid c x xy then .error (.base .badRun) else
+    reduceC (-(tMax : Int) - 1) tMax (p2ThreadC tMax it pi x y) r.es sum0 r.order
+
+/-- `P2_OpenMP<T>(x, y, a, threads, is_print)` (P2.cpp:90-128), signed `T = [-(tMax+1), tMax]`, every stored value checked -/
 def p2OpenMPC (tMax : Nat) (c : Consts) (it : Iter) (pi : Nat → Nat) (x y a : Nat) (r : Run) : Except CErr Int :=
   if a ≠ pi y then .error (.base .assertA) else
   if x < 4 then .ok 0 else
